@@ -53,6 +53,7 @@ var registry = map[string]runner{
 	"C10/grid":         w10.Grid,
 	"C10/chains":       w10.Chains,
 	"C10/malformed":    w10.Malformed,
+	"C10/child":        w10.Child,
 	"C11/dag":          w11.Run,
 	"C05/conflict":     w05.Run,
 	"C05/generated":    w05.Run,
